@@ -265,9 +265,21 @@ class PackedPointRecord:
 
 
 def apply_new_scaling(record, scales: np.ndarray, offsets: np.ndarray) -> None:
-    record["X"] = unscale_dimension(np.asarray(record.x), scales[0], offsets[0])
-    record["Y"] = unscale_dimension(np.asarray(record.y), scales[1], offsets[1])
-    record["Z"] = unscale_dimension(np.asarray(record.z), scales[2], offsets[2])
+    with np.errstate(over="ignore", invalid="ignore"):
+        new_coords = [
+            unscale_dimension(np.asarray(record.x), scales[0], offsets[0]),
+            unscale_dimension(np.asarray(record.y), scales[1], offsets[1]),
+            unscale_dimension(np.asarray(record.z), scales[2], offsets[2]),
+        ]
+    # checked before anything is modified, a float to int32 assignment would
+    # silently wrap around
+    for name, new_coord in zip(("X", "Y", "Z"), new_coords):
+        info = np.iinfo(record.array[name].dtype)
+        if not np.all((new_coord >= info.min) & (new_coord <= info.max)):
+            raise OverflowError(
+                f"{name} does not fit in {info.dtype} with the new scales and offsets"
+            )
+    record["X"], record["Y"], record["Z"] = new_coords
 
 
 class ScaleAwarePointRecord(PackedPointRecord):
